@@ -90,6 +90,24 @@ pub fn generate(seed: u64, tier: &str) -> Scenario {
             same_dir_order = true;
         }
     }
+    // every sixth scenario: a stray file where an env directory belongs (left by another tool),
+    // then the buildpack writes an environment — whatever that does must be the same every time
+    if r.chance(1, 6) {
+        if let Some((j, layer)) = history.ops.iter().enumerate().rev().find_map(|(j, op)| match op {
+            Op::Cached { layer, .. } | Op::Uncached { layer, .. } => Some((j, *layer)),
+            _ => None,
+        }) {
+            use crate::envmodel::{Beh, EnvEntry, ScopeM};
+            let e = |scope: ScopeM, name: &str, value: &str| EnvEntry { scope, beh: Beh::Override, name: name.as_bytes().to_vec(), value: value.as_bytes().to_vec() };
+            let env = vec![e(ScopeM::All, "A", "1"), e(ScopeM::Build, "B", "2"), e(ScopeM::Launch, "C", "3"), e(ScopeM::Process("web".into()), "D", "4")];
+            let which = *r.pick(&["env", "env.build", "env.launch"]);
+            history.ops.insert(j + 1, Op::WriteEnv { layer, env });
+            history.ops.insert(
+                j + 1,
+                Op::PlainFile { layer, file: crate::e1::ops::FileSpec { path: which.as_bytes().to_vec(), data: b"not a directory".to_vec(), mode: 0o644 } },
+            );
+        }
+    }
     let sb = |r: &mut Rng| -> Vec<SbomSpec> {
         (0..r.usize(3))
             .map(|_| {
@@ -224,6 +242,7 @@ fn run_vector(s: &Scenario, base: &Path, v: usize, seed: u64) -> Result<VectorRu
             store: s.store.clone(),
             build_sboms: s.build_sboms.clone(),
             launch_sboms: s.launch_sboms.clone(),
+            launch_sboms_first: false,
         },
     };
     // detect once
@@ -233,6 +252,7 @@ fn run_vector(s: &Scenario, base: &Path, v: usize, seed: u64) -> Result<VectorRu
         env: env.clone(),
         cwd: d.app.clone(),
         shim_plan: Some(plan_for("detect")),
+        exe_file_name: None,
     };
     let r = run_phase(&inv, &mk_script(Vec::new(), false), &root.join("script.json"))?;
     out.spawns += 1;
@@ -251,6 +271,7 @@ fn run_vector(s: &Scenario, base: &Path, v: usize, seed: u64) -> Result<VectorRu
             env: env.clone(),
             cwd: d.app.clone(),
             shim_plan: Some(plan_for("build")),
+            exe_file_name: None,
         };
         let r = run_phase(&inv, &mk_script(ops, bi + 1 == n), &root.join("script.json"))?;
         out.spawns += 1;
